@@ -122,7 +122,9 @@ def _parse_string(s):
     frac = float("0." + s_frac) * factor
     count = float("0" + s_count) * factor
 
-    assert count + frac == test
+    # The sum of the two parts can differ from the directly parsed value by
+    # a rounding error (e.g., for "1.0131"), hence no test for equality.
+    assert abs(count + frac - test) <= 2 * np.spacing(abs(test))
     return count, frac
 
 
